@@ -95,8 +95,8 @@ def find_sites(fi: FuncInfo) -> List[Site]:
                                 n.args[0]))
             elif fs.endswith("literal_eval"):
                 out.append(Site("literal_eval", n, fi,
-                                ("ValueError", "SyntaxError", "TypeError",
-                                 "MemoryError", "RecursionError"), None,
+                                ("ValueError", "SyntaxError", "TypeError"),
+                                None,
                                 n.args[0] if n.args else None))
             elif isinstance(f, ast.Attribute):
                 if f.attr == "pop" and not n.args and not n.keywords:
@@ -320,8 +320,93 @@ def _const_defs(fi: FuncInfo, name: str) -> Optional[List[Tuple[int, ast.AST]]]:
     return defs or None
 
 
-def seq_bound_proof(site: Site, facts: List[Fact]) -> Optional[str]:
-    cont, idx = site.container, site.index
+def _xfacts(node: ast.AST, fi: FuncInfo) -> List[Fact]:
+    """Guard facts at ``node`` with local aliases expanded."""
+    from .interproc import aliases, subst
+    amap = aliases(fi)
+    out: List[Fact] = []
+    for f in facts_at(node):
+        if f.kind == "cond" and amap:
+            out.append(Fact(subst(f.expr, amap), f.pol, f.origin, f.kind))
+        else:
+            out.append(f)
+    return out
+
+
+def _ne_facts(facts: List[Fact]) -> List[Dict[str, int]]:
+    """Linear forms d with a fact ``d != 0``."""
+    out: List[Dict[str, int]] = []
+    for f in facts:
+        e = f.expr
+        if f.kind == "cond" and isinstance(e, ast.Compare) and \
+                len(e.ops) == 1:
+            ne = (isinstance(e.ops[0], ast.NotEq) and f.pol) or \
+                (isinstance(e.ops[0], ast.Eq) and not f.pol)
+            if ne:
+                a, b = linear(e.left), linear(e.comparators[0])
+                if a is not None and b is not None:
+                    d = dict(a)
+                    for k, v in b.items():
+                        d[k] = d.get(k, 0) - v
+                    out.append({k: v for k, v in d.items()
+                                if v != 0 or k == ""})
+    return out
+
+
+def _norm(d: Dict[str, int]) -> Dict[str, int]:
+    out = {k: v for k, v in d.items() if v != 0}
+    out.setdefault("", 0)
+    return out
+
+
+def ge0(facts: List[Fact], query: Dict[str, int],
+        extra: Optional[List[Dict[str, int]]] = None) -> Optional[str]:
+    """``query >= 0`` from one fact, from an assumed form in ``extra``, or
+    from ``q + 1 >= 0`` together with ``q + 1 != 0``."""
+    f = implies_ge0(facts, query)
+    if f is not None:
+        return "`{}`".format(f)
+    q = _norm(query)
+    for form in extra or []:
+        diff = dict(q)
+        for k, v in form.items():
+            diff[k] = diff.get(k, 0) - v
+        diff = _norm(diff)
+        if set(diff) <= {""} and diff[""] >= 0:
+            return "entry invariant"
+    # q = g - 1 with g >= 0 and g != 0
+    g = dict(q)
+    g[""] = g.get("", 0) + 1
+    why = None
+    f2 = implies_ge0(facts, g)
+    if f2 is not None:
+        why = "`{}`".format(f2)
+    else:
+        for form in extra or []:
+            diff = dict(g)
+            for k, v in form.items():
+                diff[k] = diff.get(k, 0) - v
+            diff = _norm(diff)
+            if set(diff) <= {""} and diff[""] >= 0:
+                why = "entry invariant"
+    if why:
+        for ne in _ne_facts(facts):
+            if _norm(ne) == _norm(g) or \
+                    _norm({k: -v for k, v in ne.items()}) == _norm(g):
+                return why + " and a `!=` fact"
+    return None
+
+
+def seq_bound_proof(site: Site, facts: List[Fact],
+                    cont: Optional[ast.AST] = None,
+                    idx: Optional[ast.AST] = None,
+                    prog: Optional[Program] = None,
+                    extra: Optional[List[Dict[str, int]]] = None,
+                    fi: Optional[FuncInfo] = None,
+                    need_lower: bool = True) -> Optional[str]:
+    cont = cont if cont is not None else site.container
+    idx = idx if idx is not None else site.index
+    fi = fi or site.fi
     if cont is None or idx is None:
         return None
     cs = src(cont)
@@ -334,47 +419,56 @@ def seq_bound_proof(site: Site, facts: List[Fact]) -> Optional[str]:
         c = lin.get("", 0)
         need = dict(lenx)
         need[""] = (-c - 1) if c >= 0 else c
-        f = implies_ge0(facts, need)
-        if f is not None:
-            return "length fact `{}`".format(f)
+        w = ge0(facts, need, extra)
+        if w:
+            return "length fact " + w
         return None
     # variable index
     up = dict(lenx)
     for k, v in lin.items():
         up[k] = up.get(k, 0) - v
     up[""] = up.get("", 0) - 1
-    fu = implies_ge0(facts, up)
-    if fu is not None:
-        lo = implies_ge0(facts, lin)
+    wu = ge0(facts, up, extra)
+    if wu:
+        lo = ge0(facts, lin, extra)
         if lo is None:
             lo2 = dict(lenx)
             for k, v in lin.items():
                 lo2[k] = lo2.get(k, 0) + v
-            lo = implies_ge0(facts, lo2)
+            lo = ge0(facts, lo2, extra)
+        if lo is None and prog is not None:
+            from .interproc import nonneg
+            if nonneg(prog).expr(idx, fi):
+                lo = "non-negative by construction"
         if lo is not None:
-            return "two-sided bound `{}` and `{}`".format(fu, lo)
+            return "two-sided bound {} and {}".format(wu, lo)
+        if not need_lower:
+            return "upper bound {}".format(wu)
         return None
     lp = _loop_index_proof(facts, cs, src(idx), site.node)
     if lp:
         return lp
     if isinstance(idx, ast.Name):
-        defs = _const_defs(site.fi, idx.id)
+        defs = _const_defs(fi, idx.id)
         if defs:
             why = []
             for c, dnode in defs:
                 need = dict(lenx)
                 need[""] = (-c - 1) if c >= 0 else c
-                f = implies_ge0(facts, need) or \
-                    implies_ge0(facts_at(dnode), need)
-                if f is None:
+                w = ge0(facts, need, extra) or \
+                    ge0(_xfacts(dnode, fi), need, extra)
+                if w is None:
                     return None
-                why.append("{}: `{}`".format(c, f))
+                why.append("{}: {}".format(c, w))
             return "constant index values " + "; ".join(why)
     return None
 
 
-def map_key_proof(site: Site, facts: List[Fact]) -> Optional[str]:
-    cont, key = site.container, site.index
+def map_key_proof(site: Site, facts: List[Fact],
+                  cont: Optional[ast.AST] = None,
+                  key: Optional[ast.AST] = None) -> Optional[str]:
+    cont = cont if cont is not None else site.container
+    key = key if key is not None else site.index
     if cont is None or key is None:
         return None
     cs, ks = src(cont), src(key)
@@ -387,39 +481,249 @@ def map_key_proof(site: Site, facts: List[Fact]) -> Optional[str]:
     return None
 
 
-def discharge(site: Site) -> Optional[str]:
+def _appended_before(site: Site) -> Optional[str]:
+    """``x.append(v)`` earlier in the same block, then ``x[-1]``."""
+    if site.container is None or site.index is None:
+        return None
+    if src(site.index) != "-1":
+        return None
+    want = src(site.container)
+    cur: ast.AST = enclosing_stmt(site.node)
+    par = parent(cur)
+    for field in ("body", "orelse", "finalbody"):
+        blk = getattr(par, field, None)
+        if isinstance(blk, list) and cur in blk:
+            i = blk.index(cur)
+            for k in range(i - 1, -1, -1):
+                prev = blk[k]
+                if isinstance(prev, ast.Expr) and \
+                        isinstance(prev.value, ast.Call) and \
+                        isinstance(prev.value.func, ast.Attribute) and \
+                        prev.value.func.attr == "append" and \
+                        src(prev.value.func.value) == want:
+                    return "appended at line {}".format(prev.lineno)
+                if root_name(site.container) in assigned_names(prev):
+                    return None
+    return None
+
+
+def _split_proof(site: Site, facts: List[Fact]) -> Optional[str]:
+    """``parts = s.split(sep[, n])``: parts[0] always exists; parts[1]
+    exists under a fact ``sep in s``."""
+    cont, idx = site.container, site.index
+    if not isinstance(cont, ast.Name) or not isinstance(idx, ast.Constant):
+        return None
+    if idx.value not in (0, 1):
+        return None
+    defs = [n for n in walk_local(site.fi.node)
+            if isinstance(n, (ast.Assign, ast.AnnAssign)) and
+            any(isinstance(t, ast.Name) and t.id == cont.id
+                for t in (n.targets if isinstance(n, ast.Assign)
+                          else [n.target]))]
+    if len(defs) != 1:
+        return None
+    val = defs[0].value
+    if not (isinstance(val, ast.Call) and isinstance(val.func, ast.Attribute)
+            and val.func.attr == "split" and val.args):
+        return None
+    if idx.value == 0:
+        return "str.split() always yields at least one part"
+    f = _presence_fact(facts, src(val.func.value), src(val.args[0]))
+    if f is not None:
+        return "split on a separator that is present: `{}`".format(f)
+    return None
+
+
+def _group_values_proof(site: Site, facts: List[Fact]) -> Optional[str]:
+    """``for v in d.values(): v[0]`` where every store into the local dict
+    ``d`` is a non-empty list literal and nothing shrinks the groups."""
+    cont, idx = site.container, site.index
+    if not isinstance(cont, ast.Name) or not isinstance(idx, ast.Constant) \
+            or idx.value != 0:
+        return None
+    dname = None
+    for f in facts:
+        if f.kind == "loop":
+            it = getattr(f.expr, "iter", None)
+            tgt = getattr(f.expr, "target", None)
+            if isinstance(tgt, ast.Name) and tgt.id == cont.id and \
+                    isinstance(it, ast.Call) and \
+                    isinstance(it.func, ast.Attribute) and \
+                    it.func.attr == "values" and \
+                    isinstance(it.func.value, ast.Name):
+                dname = it.func.value.id
+    if dname is None or dname in site.fi.params():
+        return None
+    stores = 0
+    for n in walk_local(site.fi.node):
+        if isinstance(n, ast.Assign):
+            for t in n.targets:
+                if isinstance(t, ast.Subscript) and \
+                        isinstance(t.value, ast.Name) and \
+                        t.value.id == dname:
+                    if not (isinstance(n.value, ast.List) and n.value.elts):
+                        return None
+                    stores += 1
+                elif isinstance(t, ast.Name) and t.id == dname:
+                    if not (isinstance(n.value, ast.Dict) and
+                            not n.value.keys):
+                        return None
+        elif isinstance(n, ast.AnnAssign) and isinstance(n.target, ast.Name) \
+                and n.target.id == dname:
+            if not (isinstance(n.value, ast.Dict) and not n.value.keys):
+                return None
+        elif isinstance(n, ast.Call) and isinstance(n.func, ast.Attribute):
+            r = root_name(n.func.value)
+            if r == dname and n.func.attr in MUTATORS and \
+                    n.func.attr not in ("append", "extend"):
+                return None
+        elif isinstance(n, (ast.Subscript,)) and \
+                isinstance(n.ctx, ast.Del) and root_name(n) == dname:
+            return None
+    if stores == 0:
+        return None
+    return ("groups of local dict `{}` are created as non-empty list "
+            "literals ({} store sites) and only grow".format(dname, stores))
+
+
+def _padded_before(site: Site, prog: Optional[Program],
+                   facts: List[Fact]) -> Optional[str]:
+    """``for _ in range(len(x) - 1, n): <append one element to x>`` directly
+    before ``x[n]``: afterwards len(x) > n; the lower bound needs a fact."""
+    cont, idx = site.container, site.index
+    if cont is None or idx is None:
+        return None
+    cs, ns = src(cont), src(idx)
+    cur: ast.AST = enclosing_stmt(site.node)
+    # climb to the statement that has the padding loop as a previous sibling
+    for _ in range(3):
+        par = parent(cur)
+        blk = None
+        for field in ("body", "orelse"):
+            b = getattr(par, field, None)
+            if isinstance(b, list) and cur in b:
+                blk = b
+        if blk is None:
+            return None
+        i = blk.index(cur)
+        loop = None
+        for k in range(i - 1, -1, -1):
+            prev = blk[k]
+            if isinstance(prev, ast.For) and isinstance(prev.iter, ast.Call) \
+                    and src(prev.iter.func) == "range" and \
+                    len(prev.iter.args) == 2 and \
+                    src(prev.iter.args[0]) == "len({}) - 1".format(cs) and \
+                    src(prev.iter.args[1]) == ns:
+                loop = prev
+                break
+            if {root_name(cont), ns} & assigned_names(prev):
+                break
+        if loop is not None:
+            appends = 0
+            for n in walk_local(loop):
+                if isinstance(n, ast.Call) and \
+                        isinstance(n.func, ast.Attribute):
+                    if n.func.attr == "append" and src(n.func.value) == cs:
+                        appends += 1
+                    elif prog is not None and n.args and \
+                            src(n.args[0]) == cs:
+                        from .model import resolve_call
+                        for callee in resolve_call(prog, site.fi, n):
+                            if _appends_once(callee):
+                                appends += 1
+            conditional = any(isinstance(n, (ast.If, ast.Continue, ast.Break,
+                                             ast.Try))
+                              for n in walk_local(loop))
+            if appends == 1 and not conditional:
+                lin = linear(idx)
+                lo = ge0(facts, lin) if lin is not None else None
+                if lo:
+                    return ("padding loop at line {} appends one element "
+                            "per step up to index `{}`; lower bound {}"
+                            .format(loop.lineno, ns, lo))
+            return None
+        if isinstance(par, (ast.For, ast.While)) or \
+                not isinstance(par, ast.stmt):
+            return None
+        cur = par
+    return None
+
+
+def _appends_once(callee: FuncInfo) -> bool:
+    """The callee appends exactly one element to its first parameter on
+    every path (one unconditional ``<p0>.append(...)`` at top level)."""
+    params = callee.params()
+    if not params:
+        return False
+    p0 = params[0]
+    tops = [s for s in callee.node.body
+            if isinstance(s, ast.Expr) and isinstance(s.value, ast.Call)
+            and isinstance(s.value.func, ast.Attribute)
+            and s.value.func.attr == "append"
+            and src(s.value.func.value) == p0]
+    alls = [n for n in walk_local(callee.node)
+            if isinstance(n, ast.Call) and isinstance(n.func, ast.Attribute)
+            and n.func.attr in MUTATORS and src(n.func.value) == p0]
+    return len(tops) == 1 and len(alls) == 1
+
+
+def discharge(site: Site, prog: Optional[Program] = None,
+              extra: Optional[List[Dict[str, int]]] = None) -> Optional[str]:
     """Return the reason the site cannot raise, or None."""
+    from .interproc import aliases, subst
     h = handled(site.node, site.exc if site.kind != "subscript"
                 else ("IndexError", "KeyError"))
     if h:
         return h
-    facts = facts_at(site.node)
+    fi = site.fi
+    amap = aliases(fi)
+    facts = _xfacts(site.node, fi)
+    cont = subst(site.container, amap) if site.container is not None else None
+    idx = subst(site.index, amap) if site.index is not None else None
     if site.kind in ("subscript", "del"):
         cs = src(site.container) if site.container is not None else ""
-        kinds = _isinstance_kinds(facts, cs)
+        kinds = _isinstance_kinds(facts_at(site.node), cs)
         is_map = bool(kinds & MAP_TYPES) and not (kinds & SEQ_TYPES)
         is_seq = bool(kinds & SEQ_TYPES) and not (kinds & MAP_TYPES)
         if not is_map:
-            p = seq_bound_proof(site, facts)
+            p = seq_bound_proof(site, facts, cont, idx, prog, extra)
             if p:
                 return p
         if not is_seq:
-            p = map_key_proof(site, facts)
+            p = map_key_proof(site, facts, cont, idx) or \
+                map_key_proof(site, facts_at(site.node))
             if p:
                 return p
         if site.kind == "subscript":
-            p = _stored_before(site)
+            p = _stored_before(site) or _appended_before(site) or \
+                _split_proof(site, facts_at(site.node)) or \
+                _group_values_proof(site, facts_at(site.node)) or \
+                _padded_before(site, prog, facts)
             if p:
                 return p
         return None
     if site.kind == "pop":
-        need = {"len(" + src(site.container) + ")": 1, "": -1}
-        f = implies_ge0(facts, need)
-        return "non-empty fact `{}`".format(f) if f is not None else None
+        if prog is not None:
+            from .model import resolve_call
+            if isinstance(site.node, ast.Call) and \
+                    resolve_call(prog, fi, site.node):
+                return "not a builtin pop: resolves to a program method"
+        need = {"len(" + src(cont) + ")": 1, "": -1}
+        w = ge0(facts, need, extra)
+        return "non-empty fact " + w if w else None
     if site.kind == "pop_key":
-        p = map_key_proof(site, facts)
-        return p
+        return map_key_proof(site, facts, cont, idx)
     if site.kind == "index":
-        f = _presence_fact(facts, src(site.container), src(site.index))
+        f = _presence_fact(facts_at(site.node), src(site.container),
+                           src(site.index))
         return "presence test `{}`".format(f) if f is not None else None
+    if site.kind == "regex":
+        pat = site.index
+        if isinstance(pat, ast.Constant) and isinstance(pat.value, str):
+            import re as _re
+            try:
+                _re.compile(pat.value)
+                return "constant pattern that compiles"
+            except _re.error:
+                return None
     return None
